@@ -171,6 +171,16 @@ CLAIMED = {
              "KeyError for unknown names/DOIs.",
         design="§4 C18", technique="data-to-Coq translation + finite-domain proofs by vm_compute + exhaustive correspondence",
         note="reference (V,E,F) table hand-written; geometric facts need the hull and are decided by the exhaustive correspondence (1e-6); known finding science-J86-edge-precision."),
+    "C12": dict(
+        text="PARTIAL. Theorems for the code's polygon line-integral formula, every vertex cycle: F(-q) = conj F(q); translation by t multiplies by "
+             "exp(-i q.t); reversing the vertex order negates the line integral (so the as-found code was orientation dependent - refuted - and the "
+             "repaired code with the sign(signed_area) factor is orientation free). Not proved: edge sum = area integral (Green/Stokes), polyhedron and "
+             "sphere analogues. Correspondence decides those: implementation vs direct Gauss-Legendre quadrature of exp(-i q.r) over the signed tetrahedra "
+             "/ fan triangles / the sphere's radial integral (independent of the Stokes formula) for convex and non-convex solids, polygons in both "
+             "orientations and tilted planes, spheres, off-origin; q random, along face normals, perpendicular to edges, along axes, zero; density; "
+             "batches of one vector; conjugate symmetry and translation law on the implementation.",
+        design="§4 C12", technique="Coq proof of the algebraic laws of the code's formula + correspondence against quadrature of the defining integral",
+        note="the quadrature oracle is binary64 harness code (32-point Gauss-Legendre, tolerance 1e-5 * measure); known findings form-factor-small-q-cancellation, zero-q-absolute-threshold."),
 }
 
 REASON_TODO = "check not built yet (work in progress this round)"
